@@ -24,7 +24,9 @@ and barriered). C19: source/destination port swapped in a convertor. C01: string
 `<= 255` in StringInfoElement.GetLength. Reverting each `fix:` commit is killed by the check that found
 the defect (its replay is in replays/fixed/).
 """
-table = ("Changes written by sub-agents that saw only the property text (section 4.2). `caught by` names the check(s)\n"
+table = ("Changes written by sub-agents that saw only the property text (section 4.2). Ids with -r2- are from a second\n"
+         "round whose authors were told that single-site slips had all been caught and were asked for long sequences,\n"
+         "narrow input regions, two cooperating edits, reuse/leak and error-path faults. `caught by` names the check(s)\n"
          "whose quick tier reports a VIOLATION with the patch applied to /repo; \"after strengthening\" means the check\n"
          "missed the change at first and was extended (what was added is in the section 3 notes and in meta.json).\n\n"
          "| id | file | change | needs | caught by |\n|---|---|---|---|---|\n" + "\n".join(rows) + "\n" + hand)
